@@ -1144,12 +1144,12 @@ impl PartialEq for Stream {
 
 impl Eq for Stream {}
 
-fn cursor_position<T>(
+fn cursor_position(
     past_end_of_stream: &mut bool,
-    cursor: &Cursor<T>,
+    position: u64,
     cursor_len: u64,
 ) -> AtEndOfStream {
-    match cursor.position().cmp(&cursor_len) {
+    match position.cmp(&cursor_len) {
         Ordering::Equal => AtEndOfStream::At,
         Ordering::Greater => {
             *past_end_of_stream = true;
@@ -1179,7 +1179,10 @@ impl Stream {
         // returns lines_read, position.
         let result = match self {
             Stream::Byte(byte_stream_layout) => {
-                Some(byte_stream_layout.stream.get_ref().0.position())
+                // the reader takes a chunk out of the cursor: what it has
+                // not handed on yet has not been consumed.
+                let stream = &byte_stream_layout.stream;
+                Some(stream.get_ref().0.position() - stream.rem_buf_len() as u64)
             }
             Stream::StaticString(string_stream_layout) => {
                 Some(string_stream_layout.stream.stream.position())
@@ -1286,7 +1289,9 @@ impl Stream {
                 } = &mut ***stream_layout;
 
                 let cursor_len = stream.get_ref().0.get_ref().len() as u64;
-                cursor_position(past_end_of_stream, &stream.get_ref().0, cursor_len)
+                let position = stream.get_ref().0.position() - stream.rem_buf_len() as u64;
+
+                cursor_position(past_end_of_stream, position, cursor_len)
             }
             Stream::StaticString(stream_layout) => {
                 let StreamLayout {
@@ -1296,7 +1301,7 @@ impl Stream {
                 } = &mut ***stream_layout;
 
                 let cursor_len = stream.stream.get_ref().len() as u64;
-                cursor_position(past_end_of_stream, &stream.stream, cursor_len)
+                cursor_position(past_end_of_stream, stream.stream.position(), cursor_len)
             }
             Stream::InputFile(stream_layout) => {
                 let position = stream_layout.position();
